@@ -5,8 +5,9 @@
       x/erc20/keeper/msg_server.go  ConvertCoin / ConvertERC20 and the four internal paths
                                     convertCoinNativeCoin, convertERC20NativeCoin,
                                     convertERC20NativeToken, convertCoinNativeERC20
-      x/erc20/keeper/evm_hooks.go   PostTxProcessing (which conditions `continue`; the hook
-                                    never returns an error, so it never reverts the EVM tx)
+      x/erc20/keeper/evm_hooks.go   PostTxProcessing (the loop over ALL logs of the receipt, in
+                                    order; which conditions `continue`; the hook never returns
+                                    an error, so it never reverts the EVM tx)
       x/erc20/keeper/proposals.go   ToggleConversion
       x/erc20/types/params.go       EnableErc20, EnableEVMHook
       contracts/ERC20MinterBurnerDecimals.sol (OpenZeppelin ERC20 + ERC20Burnable + roles):
@@ -136,8 +137,9 @@ Inductive pop :=
 | Toggle                                             (* ToggleConversion *)
 | SetSendEnabled (b : bool).                         (* bank governance: send-enabled of the denomination *)
 
-(* evm_hooks.go PostTxProcessing for the single log Transfer(from, to, amt) of a
-   successful transfer; every failure is a `continue`, the hook returns nil *)
+(* evm_hooks.go PostTxProcessing: one iteration of the loop, for the log Transfer(from, to, amt)
+   of this pair's contract; every failure is a `continue`, the hook returns nil.  (The two
+   parameters are read once before the loop; they do not change inside it.) *)
 Definition hook (m h : bool) (bl : addr -> bool) (ps : pair) (from to : addr) (amt : Z) : pair :=
   if negb m || negb h then ps                           (* !EnableErc20 || !EnableEVMHook : return nil *)
   else if negb (0 <? amt) then ps                       (* tokens.Sign() != 1 : continue *)
@@ -252,12 +254,65 @@ Record state := mkState {
   pairs : Z -> pair          (* pair id -> pair state *)
 }.
 
-Inductive op :=
-| OnPair (p : Z) (o : pop)
-| SetParams (m h : bool).    (* MsgUpdateParams *)
-
 Definition updp (f : Z -> pair) (p : Z) (v : pair) : Z -> pair :=
   fun q => if Z.eqb q p then v else f q.
+
+(** * One Ethereum transaction with several logs
+
+    A contract account (a router, a vault, a multisig) may call several token contracts
+    several times within ONE transaction; the receipt then carries one log per call, and
+    PostTxProcessing walks over all of them, in order, AFTER the whole transaction has been
+    executed.  A leg is one call of the transaction together with the log it emits:
+      LTransfer p from to amt     transfer / transferFrom on the contract of pair p
+                                  (log Transfer(from, to, amt));  [from] may be an account
+                                  with code - the hook does not distinguish
+      LApprove p owner spender amt  approve on the contract of pair p: log
+                                  Approval(owner, spender, amt) - three topics and one word
+                                  of data like Transfer, another event id: `continue`
+                                  (allowances are not part of the projection)
+      LForeign from to amt        a Transfer log of a contract that is NOT registered
+                                  (GetTokenPairIdByERC20Addr finds nothing: `continue`). *)
+Inductive leg :=
+| LTransfer (p : Z) (from to : addr) (amt : Z)
+| LApprove (p : Z) (owner spender : addr) (amt : Z)
+| LForeign (from to : addr) (amt : Z).
+
+(* phase 1: the EVM executes the calls in order; a failing call reverts the transaction
+   (the calling contract requires success) *)
+Definition leg_exec (f : Z -> pair) (l : leg) : option (Z -> pair) :=
+  match l with
+  | LTransfer p from to amt =>
+      if amt <? 0 then None else
+      match tmove (f p) from to amt with
+      | None => None
+      | Some ps1 => Some (updp f p ps1)
+      end
+  | LApprove _ owner spender amt =>               (* OpenZeppelin _approve: zero owner / spender reverts *)
+      if (amt <? 0) || N.eqb owner ZERO || N.eqb spender ZERO then None else Some f
+  | LForeign _ _ _ => Some f
+  end.
+
+Fixpoint legs_exec (f : Z -> pair) (ls : list leg) : option (Z -> pair) :=
+  match ls with
+  | [] => Some f
+  | l :: r => match leg_exec f l with None => None | Some f1 => legs_exec f1 r end
+  end.
+
+(* phase 2: PostTxProcessing, one iteration of `for i, log := range receipt.Logs` *)
+Definition hook_leg (m h : bool) (bl : addr -> bool) (f : Z -> pair) (l : leg) : Z -> pair :=
+  match l with
+  | LTransfer p from to amt => updp f p (hook m h bl (f p) from to amt)
+  | LApprove _ _ _ _ => f                       (* event.Name != "Transfer" : continue *)
+  | LForeign _ _ _ => f                         (* len(id) == 0 : continue *)
+  end.
+
+Definition hooks_run (m h : bool) (bl : addr -> bool) (f : Z -> pair) (ls : list leg) : Z -> pair :=
+  fold_left (hook_leg m h bl) ls f.
+
+Inductive op :=
+| OnPair (p : Z) (o : pop)
+| SetParams (m h : bool)     (* MsgUpdateParams *)
+| EvmTx (legs : list leg).   (* one Ethereum transaction whose receipt carries these logs *)
 
 Definition exec (s : state) (o : op) : option state :=
   match o with
@@ -267,6 +322,13 @@ Definition exec (s : state) (o : op) : option state :=
       | Some ps' => Some (mkState (en_mod s) (en_hook s) (blocked s) (updp (pairs s) p ps'))
       end
   | SetParams m h => Some (mkState m h (blocked s) (pairs s))
+  | EvmTx legs =>
+      match legs_exec (pairs s) legs with
+      | None => None                                (* revert: nothing committed, hooks not called *)
+      | Some f =>
+          Some (mkState (en_mod s) (en_hook s) (blocked s)
+                        (hooks_run (en_mod s) (en_hook s) (blocked s) f legs))
+      end
   end.
 
 (* message atomicity: an error (or a reverted EVM tx) leaves the state as it was *)
